@@ -26,8 +26,9 @@ def crit(conn, c1, c2=None):
     return '[conn |-> "%s", c1 |-> %s, c2 |-> %s]' % (conn, c1, c2 or leaf())
 
 
-def query(lo, hi, series, c):
-    return '[lo |-> %d, hi |-> %d, series |-> %s, crit |-> %s]' % (lo, hi, tla_set(series), c)
+def query(lo, hi, series, c, order='none', asc=True, offset=0, limit=0):
+    return '[lo |-> %d, hi |-> %d, series |-> %s, crit |-> %s, order |-> "%s", asc |-> %s, offset |-> %d, limit |-> %d]' % (
+        lo, hi, tla_set(series), c, order, 'TRUE' if asc else 'FALSE', offset, limit)
 
 
 def mc_files(fam):
@@ -65,6 +66,9 @@ def run_families(c, families, binp, nontrivial, procs=6):
             nodes, edges, inits = tlc.graph(g)
             behs, unc = tlc.cover_edges(nodes, edges, inits, max_len=fam['graphops'] + 1)
             tlc.cleanup(g)
+        if fam.get('sim'):
+            sfam = dict(fam); sfam.update(fam['sim'])
+            mc, cfg, tags = mc_files(sfam)
         s = tlc.run('MCEng.tla', 's.cfg', tag='engs', files={'MCEng.tla': mc, 's.cfg': cfg % fam.get('simops', depth + 4)},
                     simulate={'num': fam.get('sims', 100)}, depth=fam.get('simops', depth + 4) + 1, seed=c.seed, timeout=900)
         sb = tlc.sim_behaviours(s)
